@@ -119,7 +119,43 @@ pub struct MegaCase {
 }
 
 /// One response with a very large number of short lines, then a second small one.
+/// One field whose value is `len` bytes long, then a small response.
+fn check_giant_line(case: &MegaCase) -> CaseResult {
+    let mut r = CaseResult::new();
+    let len = case.lines;
+    let mut stream = Vec::with_capacity(len + 32);
+    stream.extend_from_slice(b"a: ");
+    stream.resize(3 + len, b'v');
+    stream.extend_from_slice(b"\nb: c\nOK\nz: y\nOK\n");
+    let seg = Seg::Chunk(case.chunk.max(1));
+    // not through `run`: the observation would copy the value several times
+    let obs = run(case.flavour, GREETING, &stream, &seg, 0);
+    r.nontrivial();
+    r.class("one_line_of_8MiB_and_more");
+    let ok = obs.responses.len() == 2
+        && obs.responses[0].frames.len() == 1
+        && obs.responses[0].frames[0].fields.len() == 2
+        && obs.responses[0].frames[0].fields[0].0 == "a"
+        && obs.responses[0].frames[0].fields[0].1.len() == len
+        && obs.responses[0].frames[0].fields[0].1.bytes().all(|b| b == b'v')
+        && obs.responses[0].frames[0].fields[1] == ("b".to_string(), "c".to_string())
+        && obs.responses[1].frames[0].fields == vec![("z".to_string(), "y".to_string())]
+        && obs.terminal == Terminal::CleanEof;
+    if !ok {
+        r.fail(format!(
+            "response with one value of {len} bytes + a second response, {:?}/{seg:?}: {} response(s), terminal {:?}",
+            case.flavour,
+            obs.responses.len(),
+            obs.terminal
+        ));
+    }
+    r
+}
+
 pub fn check_mega(case: &MegaCase) -> CaseResult {
+    if case.lines >= 1 << 23 {
+        return check_giant_line(case);
+    }
     let mut r = CaseResult::new();
     let mut stream = Vec::with_capacity(case.lines * 5 + 16);
     for i in 0..case.lines {
@@ -161,15 +197,24 @@ pub fn property(_tier: Tier) -> Property {
             check: Box::new(check),
         }), Box::new(crate::core::ExhaustivePart {
             name: "mega_responses",
-            rule: "one response of N short lines followed by a small one, N in {65535, 65536, 65537, 131073, 200000, 300000 (thorough: + 1000000)} x {blocking, async} x {whole (the buffer doubles up to 4 MiB), 60000-byte chunks}: both responses must be delivered completely, then a clean end",
+            rule: "one response of N short lines followed by a small one, N in {65535, 65536, 65537, 131073, 200000, 300000 (thorough: + 1000000)} x {blocking, async} x {whole (the buffer doubles up to 4 MiB), 60000-byte chunks}: both responses must be delivered completely, then a clean end; and one response holding a single value of 8 MiB+3, 16 MiB+1, 32 MiB+5 bytes (thorough: + 64, 128 MiB) x {blocking, async}",
             space: Box::new(|t: Tier| {
                 let mut sizes = vec![65_535usize, 65_536, 65_537, 131_073, 200_000, 300_000];
                 if t == Tier::Thorough {
                     sizes.push(1_000_000);
                 }
-                Box::new(sizes.into_iter().flat_map(|lines| {
-                    [Flavour::Blocking, Flavour::Async].into_iter().flat_map(move |flavour| [0usize, 60_000].into_iter().map(move |chunk| MegaCase { lines, flavour, chunk }))
-                }))
+                // `lines` >= 2^23: not a line count but the length in bytes of ONE value line (just past
+                // 8, 16, 32 MiB; thorough also 64 and 128 MiB)
+                let mut giants = vec![(1usize << 23) + 3, (1 << 24) + 1, (1 << 25) + 5];
+                if t == Tier::Thorough {
+                    giants.extend([(1usize << 26) + 1, (1 << 27) + 9]);
+                }
+                Box::new(
+                    sizes
+                        .into_iter()
+                        .flat_map(|lines| [Flavour::Blocking, Flavour::Async].into_iter().flat_map(move |flavour| [0usize, 60_000].into_iter().map(move |chunk| MegaCase { lines, flavour, chunk })))
+                        .chain(giants.into_iter().flat_map(|lines| [Flavour::Blocking, Flavour::Async].into_iter().map(move |flavour| MegaCase { lines, flavour, chunk: 1_000_003 }))),
+                )
             }),
             check: Box::new(check_mega),
         })],
